@@ -578,10 +578,18 @@ fn gen_model(
             q.0 = format!("Q{}", i + 1);
         }
     }
-    let trees = states
+    let mut trees: Vec<TreeSpec> = states
         .iter()
         .map(|s| gen_tree(t, *s, questions.len(), max_depth, protect, |t| pdf(t, *s)))
         .collect();
+    // the trees of a section may be listed in any order; the k-th PDF block belongs to the k-th
+    // LISTED tree (the serialiser writes both in this order)
+    if trees.len() >= 2 && t.chance(0.2) {
+        for i in (1..trees.len()).rev() {
+            let j = t.below(i + 1);
+            trees.swap(i, j);
+        }
+    }
     ModelSpec { prefix: prefix.to_string(), questions, trees, pdf_len }
 }
 
@@ -937,6 +945,16 @@ pub fn perturbed_bundled(t: &mut Tape, strength: f64) -> Vec<u8> {
 pub fn variant_voice(t: &mut Tape, base: &VoiceSpec) -> VoiceSpec {
     fn vary_model(t: &mut Tape, m: &mut ModelSpec, is_msd: bool) {
         let nq = m.questions.len();
+        // question lists are not metadata: now and then this voice defines a question NAME of the
+        // base voice with another pattern list (what a question means is local to its file)
+        if nq > 0 && t.chance(0.3) {
+            let (pool, _) = question_pool();
+            for _ in 0..t.urange(1, 2) {
+                let k = t.below(nq);
+                let other = &pool[t.below(pool.len())];
+                m.questions[k].1 = other.1.clone();
+            }
+        }
         let len = m.pdf_len;
         for tree in m.trees.iter_mut() {
             for n in tree.nodes.iter_mut() {
